@@ -126,7 +126,7 @@ def run(ctx):
         if mres is not None and mres != want:
             ctx.mismatch("model disagrees with implementation and definition on %s" % kind, case, impl=res, model=mres, spec=want,
                          failing_input=False, broken="corr:Ds.Prov.%s / theorem C12_%s" % (kind, kind))
-        if ctx.elapsed() > (100 if ctx.tier == "quick" else 900):
+        if ctx.elapsed() > (400 if ctx.tier == "quick" else 1800):
             break
     return ctx.finish("proof", "Theorems C12_* state that the modelled fork/select/default/ofGroups/join act row-wise on the query result for every "
                       "container and assignment; this run compared the real operations with the definition and the model.", RULE)
